@@ -4,7 +4,7 @@
 cd "$(dirname "$0")/.." || exit 3
 rc=0
 for id in $(jq -r '.checks[].property_id' MANIFEST.json); do
-  out=$(timeout 1800 ./check "$id" quick 2>&1); code=$?
+  out=$(GCV_STRICT=1 timeout 1800 ./check "$id" quick 2>&1); code=$?
   echo "$out" | tail -1 | cut -c1-200
   [ $code -ne 0 ] && { echo "  -> exit $code for $id"; rc=1; }
 done
